@@ -401,8 +401,6 @@ def _hinted(r, v):
                 if _alias_of(items[i], v):
                     items[i] = Tup((_ID, items[i]), False)
             return Tup(items, False)
-    elif h in _INLINE_OPS:
-        pass
     if h in _INLINE_OPS and _PUTMODE[0]:
         return r
     if h in _INLINE_OPS:
